@@ -190,7 +190,7 @@ def run(rep, work, seed, n_cases, n_stmts, replay=None, tag="heap", p_fail=0.2, 
         bad.extend(idx[j] for j in lst)
     first = {}
     if bad:
-        fb = gh.coq_classes([terms[i] for i in bad[:6]], "hcase", "heap_first_bad", work, tag + "fb", shard=60)
+        fb = gh.coq_classes([terms[i] for i in bad[:6]], "hcase", "heap_first_bad", work, tag + "fb", shard=60, header=HEADER)
         first = {i: k - 1 for i, k in zip(bad[:6], fb)}
     n_v = 0
     for i in bad[:6]:
